@@ -161,7 +161,9 @@ func (t *template) layout(ctx context.Context, w io.Writer) error {
 			return err
 		}
 
-		contentHTML := buf.String()
+		// (without the line break that ends the last element: inside the layout it would be white
+		// space at the end of the content, which v-html keeps)
+		contentHTML := strings.TrimSuffix(buf.String(), "\n")
 
 		data["content"] = contentHTML
 		// Pass inherited slots to the layout via the SlotScope so they can be used by <slot> elements
